@@ -90,6 +90,24 @@ def plan(tier, seed):
         for i in range(0, len(parts), step):
             tasks.append({'space': 'feature', 'mols': [mol], 'name': nm, 'level': level,
                           'parts': parts[i:i + step], 'pre': (0, 0)})
+    # hubs: a fragment with >= 3 neighbour fragments one of which is reached by two cut bonds (the base graph string
+    # then carries a bond order in front of a second branch)
+    for nm in ('dimethylcyclobutane', 'spiro', 'methylenecyclopentane'):
+        mol = M.FEATURE[nm]
+        parts = []
+        for p in M.partitions(mol, max_frag=5):
+            if len(p) < 4:
+                continue
+            owner = {a: i for i, c in enumerate(p) for a in c}
+            cnt = {}
+            for a, b, o in mol['bonds']:
+                if owner[a] != owner[b]:
+                    k = (min(owner[a], owner[b]), max(owner[a], owner[b]))
+                    cnt[k] = cnt.get(k, 0) + 1
+            if cnt and max(cnt.values()) >= 2:
+                parts.append(p)
+        for i in range(0, len(parts), 3):
+            tasks.append({'space': 'hubs', 'mols': [mol], 'name': nm, 'level': 'hub', 'parts': parts[i:i + 3], 'pre': (0, 0)})
     names = sorted(M.SLICE)
     for j in range(3):
         nm = names[(seed * 3 + j) % len(names)]
@@ -104,6 +122,8 @@ def plan(tier, seed):
 def orders_for(k, level):
     if k <= 1:
         return [tuple(range(k))]
+    if level == 'hub':
+        return list(itertools.permutations(range(k))) if k <= 4 else list(itertools.permutations(range(k)))[::7]
     if level == 'full' and k <= 4:
         return list(itertools.permutations(range(k)))
     ident = tuple(range(k))
@@ -117,6 +137,8 @@ def kinds_for(ncut, level):
         return [('$',)]
     if level == 'full' and ncut <= 3:
         return list(itertools.product('$>', repeat=ncut))
+    if level == 'hub':
+        return [('$',)]
     return [('$',), ('>',), ('$', '<')] if level != 'lite2' else [('$',), ('>', '<')]
 
 
@@ -124,12 +146,12 @@ def leaves(mol, comps, level):
     """decision tree below one partition, as an Explorer transition system over decision prefixes"""
     ncut = M.n_cuts(mol, comps)
     k = len(comps)
-    styles = STYLES_FULL if level == 'full' else STYLES_LITE if level == 'lite' else STYLES_LITE[:2]
+    styles = STYLES_FULL if level == 'full' else STYLES_LITE if level == 'lite' else STYLES_LITE[:2] if level != 'hub' else STYLES_LITE[:1]
     levels = [kinds_for(ncut, level), orders_for(k, level)]
     for c in comps:
-        levels.append(list(c) if level != 'lite2' else [c[0], c[-1]] if len(c) > 1 else [c[0]])
+        levels.append(list(c) if level not in ('lite2', 'hub') else [c[0], c[-1]] if (len(c) > 1 and level != 'hub') else [c[0]])
     levels.append(list(range(len(styles))))
-    levels.append(['graph', 'string', 'graph-rev'] if level != 'lite2' else ['graph', 'graph-rev'])
+    levels.append(['string'] if level == 'hub' else ['graph', 'string', 'graph-rev'] if level != 'lite2' else ['graph', 'graph-rev'])
 
     def succ(prefix):
         d = len(prefix)
